@@ -466,6 +466,14 @@ pub fn gen_picture(rng: &mut Rng, uri: String, limit: usize) -> Picture {
         } else {
             None
         },
+        chunk_caps: if rng.chance(1, 5) {
+            (0..rng.urange(1, 3))
+                .map(|_| rng.urange(1, limit.max(1)))
+                .collect()
+        } else {
+            Vec::new()
+        },
+        header_before_error: rng.chance(1, 3),
         later_error: if rng.chance(1, 8) {
             Some((
                 *rng.pick(&[1u64, 2, limit as u64, limit as u64 + 1, 3 * limit as u64, 5000]),
@@ -579,7 +587,15 @@ pub fn gen_fault(rng: &mut Rng, dry: &Dry) -> Fault {
         }
     };
     let write = |rng: &mut Rng| rng.below(dry.writes.max(1));
-    match rng.below(12) {
+    match rng.below(13) {
+        12 => Fault {
+            kind: FaultKind::IdleDenied(*rng.pick(&[4u64, 4, 5, 2, 52])),
+            trigger: if rng.chance(1, 2) {
+                Trigger::AtTime(time(rng))
+            } else {
+                Trigger::AfterResponse(rng.below(dry.responses.max(1) as u64) as u32)
+            },
+        },
         0 => Fault {
             kind: FaultKind::CloseClean,
             trigger: Trigger::AtTime(time(rng)),
